@@ -10,6 +10,7 @@ import (
 	"sort"
 	"strings"
 	"sync"
+	"sync/atomic"
 
 	"verif/lintrun"
 	"verif/monitors"
@@ -18,6 +19,7 @@ import (
 
 // (go 1.24/1.25 modules would make the go command on PATH (1.23) try to download a toolchain; 1.26 is cached)
 var modVersions = []string{"1.16", "1.18", "1.20", "1.21", "1.22", "1.23", "1.26"}
+
 // (no tag above go1.23: the go command on PATH is go1.23 and would exclude the file for modules that do not switch toolchains)
 var fileTags = []string{"", "go1.17", "go1.19", "go1.20", "go1.21", "go1.22", "go1.23"}
 var goFlags = []string{"module", "1.17", "1.18", "1.19", "1.20", "1.21", "1.22", "1.23", "1.24", "1.25", "1.26"}
@@ -99,6 +101,7 @@ func Run(r *vf.Run) {
 	if !r.Thorough() {
 		// the full grid is small enough for the quick tier too; keep every 1st..: all
 	}
+	var sharedCacheRuns atomic.Int64
 	type res struct {
 		c       cfg
 		files   map[string]*fileObs // "<pkgdir>/<file>"
@@ -106,19 +109,22 @@ func Run(r *vf.Run) {
 		outcome lintrun.Result
 	}
 	results := make([]res, len(cfgs))
+	// Configurations that differ only in the -go flag are run one after the other in the
+	// SAME directory on the SAME cache (in a seeded order), as a user switching -go would:
+	// what one run stored must not leak into a run with another target version.
+	groups := map[string][]int{}
+	var groupKeys []string
+	for i, c := range cfgs {
+		k := c.mod + "/" + c.dep
+		if groups[k] == nil {
+			groupKeys = append(groupKeys, k)
+		}
+		groups[k] = append(groups[k], i)
+	}
 	var wg sync.WaitGroup
 	sem := make(chan struct{}, 10)
-	for i, c := range cfgs {
-		wg.Add(1)
-		go func(i int, c cfg) {
-			defer wg.Done()
-			sem <- struct{}{}
-			defer func() { <-sem }()
-			root := filepath.Join(r.Scratch(), fmt.Sprintf("g%d", i))
-			writeModule(filepath.Join(root, "main"), "example.com/main", c.mod, "../dep")
-			writeModule(filepath.Join(root, "dep"), "example.com/dep", c.dep, "")
-			// the main module must import the dependency for it to be loadable
-			os.WriteFile(filepath.Join(root, "main", "p", "imp.go"), []byte("package p\n\nimport \"example.com/dep/p\"\n\n// W uses the dependency.\nvar W = p.V\n"), 0o644)
+	runOne := func(i int, c cfg, root string) {
+		{
 			args := []string{"-verif.only-monitors", "-checks", "VFY9001", "-f", "json"}
 			if c.flag != "module" {
 				args = append(args, "-go", c.flag)
@@ -153,10 +159,31 @@ func Run(r *vf.Run) {
 				rs.err = fmt.Sprintf("no probe output at all (exit=%d): %s", out.Exit, out.Stderr)
 			}
 			results[i] = rs
+		}
+	}
+	for gi, k := range groupKeys {
+		wg.Add(1)
+		go func(gi int, idx []int) {
+			defer wg.Done()
+			sem <- struct{}{}
+			defer func() { <-sem }()
+			root := filepath.Join(r.Scratch(), fmt.Sprintf("g%d", gi))
+			c0 := cfgs[idx[0]]
+			writeModule(filepath.Join(root, "main"), "example.com/main", c0.mod, "../dep")
+			writeModule(filepath.Join(root, "dep"), "example.com/dep", c0.dep, "")
+			// the main module must import the dependency for it to be loadable
+			os.WriteFile(filepath.Join(root, "main", "p", "imp.go"), []byte("package p\n\nimport \"example.com/dep/p\"\n\n// W uses the dependency.\nvar W = p.V\n"), 0o644)
+			order := append([]int(nil), idx...)
+			rng := r.Rand("flag-order", gi)
+			rng.Shuffle(len(order), func(a, b int) { order[a], order[b] = order[b], order[a] })
+			for _, i := range order {
+				runOne(i, cfgs[i], root)
+			}
+			sharedCacheRuns.Add(int64(len(order)))
 			if os.Getenv("VERIF_KEEP") == "" {
 				os.RemoveAll(root)
 			}
-		}(i, c)
+		}(gi, groups[k])
 	}
 	wg.Wait()
 	evals, nontrivial := 0, 0
@@ -235,6 +262,8 @@ func Run(r *vf.Run) {
 		}
 	}
 	r.Set("configurations", len(cfgs))
+	r.Set("directories_with_a_shared_cache", len(groupKeys))
+	r.Set("runs_on_a_cache_shared_with_other_go_flags", sharedCacheRuns.Load())
 	r.Set("files_observed", evals)
 	r.Set("bound_presence_checks", boundChecks)
 	r.Set("distinct_effective_version_pairs", len(distinctEff))
@@ -242,5 +271,5 @@ func Run(r *vf.Run) {
 	r.Set("grid", map[string]any{"module_go": modVersions, "dependency_module_go": "rotated over the same list", "file_tags": fileTags, "go_flag": goFlags, "thresholds": monitors.Thresholds, "bounds": []string{"min", "max"}, "kinds": []string{"language", "stdlib"}})
 	r.Assume("the language version of a file with a go1.N build constraint is max(N, go1.21) — the Go toolchain's (go/types) rule, which code.LanguageVersion documents it follows")
 	r.Finish(evals, nontrivial, 100,
-		"full grid: module go version x dependency-module go version x file build constraint x -go flag; for every file the probe analyzer (run through the real runner) reports the effective versions and one problem per {min,max} x {language,stdlib} bound at every threshold go1.17..go1.26. evaluations = files observed; non-trivial = files with a build constraint for which language and stdlib versions differ or -go overrides the module")
+		"full grid: module go version x dependency-module go version x file build constraint x -go flag (all -go values of one module pair run in one directory on one shared cache, in a seeded order); for every file the probe analyzer (run through the real runner) reports the effective versions and one problem per {min,max} x {language,stdlib} bound at every threshold go1.17..go1.26. evaluations = files observed; non-trivial = files with a build constraint for which language and stdlib versions differ or -go overrides the module")
 }
